@@ -62,6 +62,7 @@ void sim_tso_enable(void);  /* x86-TSO store buffering for atomic stores weaker 
 void sim_tso_enable_plain(void); /* ... and for plain aligned stores into heap objects (thread-mode harnesses only) */
 void sim_stall_after_rmw(int nth, int steps); /* the calling kernel thread sleeps for `steps` scheduling points' worth of time right after its nth atomic RMW from now */
 void sim_hold_before_dwcas(volatile int* reached, volatile int* release, int max_steps); /* the calling kernel thread is preempted right before its next double-word CAS until *release != 0 (or max_steps) */
+void sim_stall_after_timer_read(int steps); /* ... right after its next successful read of the timer descriptor */
 void sim_tso_sync(void);         /* drain the calling thread's store buffer: call where the harness regards an operation as complete */
 
 /* ---- verdicts ---- */
